@@ -1,5 +1,5 @@
 #!/venv/bin/python
-"""keep_mutant.py <worktree> <n> <seed id> <property> <needs> <caught_by comma list> [<missed_by>]"""
+"""keep_mutant.py <worktree> <n> <seed id> <property> <needs> <caught_by comma list> [<missed_by, "|"-separated>]"""
 import sys, os, json, shutil, subprocess
 wt, n, sid, prop, needs, caught = sys.argv[1:7]
 missed = sys.argv[7] if len(sys.argv) > 7 else ""
@@ -12,7 +12,7 @@ meta = {"id": sid, "property": prop, "needs": needs, "base_commit": head,
         "verified": {"existing_tests": "3 failed, 66 passed (same three baseline failures) with the patch applied",
                      "demo": "demo.py exits 1 (FAIL) with the patch and 0 (PASS) without, run from a scratch worktree",
                      "how": "tools/try_mutant.sh <scratch worktree> patch.diff demo.py <checks> (VERIF_REPO pointed at the patched worktree)"},
-        "caught_by": [c for c in caught.split(",") if c], "missed_by_at_first": [c for c in missed.split(",") if c],
+        "caught_by": [c for c in caught.split(",") if c], "missed_by_at_first": [c for c in missed.split("|") if c],
         "author": "independent sub-agent given only the property record and a scratch worktree"}
 json.dump(meta, open(os.path.join(d, "meta.json"), "w"), indent=1)
 print("kept", sid)
